@@ -96,13 +96,19 @@ def obs_wrapper(case):
     return {"kind": "wrapper", "S": list(S), "events": events, "bufsize": case["bufsize"]}
 
 
+_KEEP = []
+
+
 def _reader_items(stream, kw):
     from pyubx2 import UBXReader
 
     items, pd = [], []
     end = "eof"
     try:
-        for raw, parsed in UBXReader(stream, **kw):
+        rdr = UBXReader(stream, **kw)
+        _KEEP.append(rdr)  # earlier readers / connections stay referenced while later ones are opened (a reconnecting application)
+        del _KEEP[:-2]
+        for raw, parsed in rdr:
             items.append(bytes(raw))
             pd.append(rd.digest(parsed))
     except rd.HangGuard:
